@@ -79,7 +79,7 @@ func init() {
 		LevelNote:   "Trusted: go/ssa, executor, z3, the specification in the harness. regexp2 is used through a contract (Compile fails for patterns marked bad; MatchString is an uninterpreted predicate of pattern and subject); time.ParseDuration runs for real on concrete annotation values. Names are 2 symbolic bytes over {a,b}, tags 1 byte; bounds on shapes per tier below.",
 		Technique:   techniqueText,
 		Explanation: "Bounded symbolic execution of DialerSet.FilterAndAnnotate / filterHit / NewAnnotation / NewDialerSelectionPolicyFromGroupParam.",
-		Bounds:      map[string]string{"quick": "2 nodes; shapes: no filter | 1 line x 1 condition x <=2 values | 2 lines x 1 condition x 1 value | 1 line x 2 conditions x 1 value; inputs name/subtag, keys exact/keyword/regex, negation symbolic, 1 regex pattern; invalid-element harness: 6 kinds at fixed positions; policy: 7 names x params shapes", "thorough": "3 nodes; adds 2 lines x <=2 values, 2 lines x 2 conditions x <=2 values, 2 regex patterns"},
+		Bounds:      map[string]string{"quick": "2 nodes; shapes: no filter | 1 line x 1 condition x <=2 values | 2 lines x 1 condition x 1 value | 1 line x 2 conditions x 1 value; inputs name/subtag, keys exact/keyword/regex, negation symbolic, 1 regex pattern; invalid-element harness: 8 kinds at fixed positions (annotations alone and after a valid entry); policy: 7 names x params shapes", "thorough": "3 nodes; adds 2 lines x <=2 values, 2 lines x 2 conditions x <=2 values, 2 regex patterns"},
 		Outside:     []string{"regexp2's own matching", "names longer than 2 bytes / other characters (matching is by equality and substring on symbolic bytes)", "NewDialerSetFromLinks (node link parsing)"},
 		Assumptions: []string{"regexp2.Compile/MatchString by contract", "Dialer.Property() returns the harness's property object"},
 		QuickBudget: 8 * time.Minute, ThoroughBudget: 20 * time.Minute,
@@ -264,29 +264,29 @@ func init() {
 	}
 	checks["C09"] = &CheckDef{
 		Pkgs: []string{"./control"}, Splice: true,
-		Harness: []string{"control:Verif_C09_forwarder_lifetime", "control:Verif_C09_cached_reply_id", "control:Verif_C09_udp_upstream_id", "control:Verif_C09_singleflight", "control:Verif_C09_pipelined"},
-		MaxIter: 2000,
+		Harness: []string{"control:Verif_C09_forwarder_lifetime", "control:Verif_C09_cached_reply_id", "control:Verif_C09_udp_upstream_id", "control:Verif_C09_singleflight", "control:Verif_C09_pipelined", "control:Verif_C09_pipelined_cancel"},
+		MaxIter: 5000,
 		Level:   "other",
 		LevelText: "Three clauses of the property on the real code. (1) 'A retired upstream connection is closed exactly once, after its last in-flight query': cachedDnsForwarder.beginUse / endUse / retire / closeNow with two borrowing queries and a retirement as goroutines under schedule exploration (every interleaving at blocking points plus up to two preemptions at any atomic operation, schedules as symbolic inputs): an admitted query never sees its forwarder closed, the forwarder is closed exactly once when retired and idle, a retired forwarder admits nobody. (2) 'Each reply carries that client's transaction ID': DnsController.writeCachedResponse on an arbitrary packed answer (12-20 symbolic bytes, and a 1030-byte answer beyond the pooled buffer) and an arbitrary client ID: the datagram sent is the cached answer with exactly the first two bytes replaced, from the queried server's address to the client, and the cached bytes are untouched. (3) 'Whatever an upstream does (answer late, twice, for a different question)': DoUDP.ForwardDNS with the real connection pool against a model socket delivering up to three datagrams with arbitrary IDs: exactly the first datagram carrying the request's ID is returned, none is made up otherwise. (4) Concurrent identical questions: two clients call the real HandleWithResponseWriter_ at the same time (real x/sync singleflight, resolution replaced by a yielding stub returning an uncacheable NXDOMAIN), all interleavings at blocking operations: both are served exactly once under their own symbolic IDs and the replies are separate message objects. (5) The pipelined TCP upstream (newPipelinedConn, readLoop, RoundTrip, idBitmap, responseSlot) over a model stream: two queries in flight, a stray reply under an ID the connection never issued (including the two that alias a genuine ID above the table's 12 index bits) followed by the genuine replies in either order: each query gets exactly its own reply. A genuine defect was found with this check and repaired (see known_findings.json): endUse could close a retired forwarder under a query admitted just before the retirement.",
 		LevelNote: "Partial claim. Not covered: pipelining timeouts / ID reuse after cancellation with ID reuse, UDP->TCP fallback, caching under the right key - the last is covered from the cache side by C07/C08). Trusted: go/ssa, executor and its thread model (switches only at synchronisation operations), z3, miekg/dns Pack/Unpack as executed.",
 		Technique: techniqueText,
 		Explanation: "Bounded symbolic execution and schedule exploration of DNS reply ID handling, upstream ID filtering and forwarder lifetime.",
-		Bounds: map[string]string{"quick": "2 borrowers + 1 retire, <=2 preemptions; cached answers of 12/16/20 symbolic bytes, symbolic 16-bit IDs; 1-3 upstream datagrams with symbolic IDs; 2 concurrent clients on one uncached question", "thorough": "same (3 preemptions are out of reach within the budget)"},
+		Bounds: map[string]string{"quick": "2 borrowers + 1 retire, <=2 preemptions; cached answers of 12/16/20 symbolic bytes, symbolic 16-bit IDs; 1-3 upstream datagrams with symbolic IDs; 2 concurrent clients on one uncached question; pipelined: 2 queries + 1 stray reply (5 stray IDs, both genuine orders); pipelined_cancel: 1 cancelled query, 1 later query, the late answer first", "thorough": "same (3 preemptions are out of reach within the budget)"},
 		Outside: []string{"the UDP packet-send branch after singleflight (needs sendPkt)", "DoH / DoQ forwarders, pipelined connection pool scaling", "UDP to TCP fallback", "ID collisions between concurrent clients on one pooled socket (each borrower owns its socket while it waits)"},
 		Assumptions: []string{"goroutines switch only at synchronisation operations", "sendPkt replaced by a recorder; the upstream socket is a model that returns the given datagrams then times out"},
 		QuickBudget: 10 * time.Minute, ThoroughBudget: 20 * time.Minute,
 	}
 	checks["C05"] = &CheckDef{
 		Pkgs: []string{"./control"}, Splice: true,
-		Harness: []string{"control:Verif_C05_relay", "control:Verif_C05_relay_error", "control:Verif_C05_prefetch"},
+		Harness: []string{"control:Verif_C05_relay", "control:Verif_C05_relay_error", "control:Verif_C05_prefetch", "control:Verif_C05_port53"},
 		MaxIter: 2000,
 		Level:   "other",
-		LevelText: "The real relay (RelayTCPContextWithRecords -> relayCore.run with its two direction goroutines, context watcher and forceClose, defaultRelayCopyEngine.Copy, tryRelayGatherWrite with TakeRelaySegments / TakeRelayPrefix / CopyRelayRemainder, relayCopyLoop / relayCopyDirect) runs between two model sockets under the engine's schedule exploration (every interleaving of client, upstream, the two copy directions and the watcher at blocking operations; schedules are symbolic inputs). The client side is plain, or wrapped the way handleConn wraps it: prefixedConn with read-ahead bytes, bufioConn after a DNS-detection Peek (with the gather path's read of pending client bytes enabled by letting the model socket count as a TCP socket), or ConnSniffer over a prefixedConn after a failed sniff. Client and upstream each send two segments of symbolic bytes and shut down their sending side; the model sockets either report end of stream on its own or together with their last bytes (as TLS / AEAD streams do). Obligations: each side receives exactly the other's byte stream (read-ahead included, no loss, duplication or reordering); each end of stream is passed on as exactly one write-shutdown and nothing is written after it; the relay finishes without error. A second harness resets the upstream at either write: the relay does not hang, reports the error and closes both connections. A genuine defect was found with this check and repaired (see known_findings.json): the wrappers hid CloseWrite, so the upstream's end of stream reached a client behind a sniffing wrapper only after the 10 s half-close timeout.",
-		LevelNote: "Partial claim. The splice(2) and writev fast paths need real *net.TCPConn file descriptors and are not executed (model sockets take the buffered-loop and gather paths); handleConn's wiring (DNS fast path, prefetch timing, routing, dial) is not executed; the detection-window timing clause is covered for the sniffer only (C06). Trusted: go/ssa, executor and thread model (switches at blocking operations only in this check), z3.",
+		LevelText: "The real relay (RelayTCPContextWithRecords -> relayCore.run with its two direction goroutines, context watcher and forceClose, defaultRelayCopyEngine.Copy, tryRelayGatherWrite with TakeRelaySegments / TakeRelayPrefix / CopyRelayRemainder, relayCopyLoop / relayCopyDirect) runs between two model sockets under the engine's schedule exploration (every interleaving of client, upstream, the two copy directions and the watcher at blocking operations; schedules are symbolic inputs). The client side is plain, or wrapped the way handleConn wraps it: prefixedConn with read-ahead bytes, bufioConn after a DNS-detection Peek (with the gather path's read of pending client bytes enabled by letting the model socket count as a TCP socket), or ConnSniffer over a prefixedConn after a failed sniff. Client and upstream each send two segments of symbolic bytes and shut down their sending side; the model sockets either report end of stream on its own or together with their last bytes (as TLS / AEAD streams do). Obligations: each side receives exactly the other's byte stream (read-ahead included, no loss, duplication or reordering); each end of stream is passed on as exactly one write-shutdown and nothing is written after it; the relay finishes without error. A second harness resets the upstream at either write: the relay does not hang, reports the error and closes both connections. A genuine defect was found with this check and repaired (see known_findings.json): the wrappers hid CloseWrite, so the upstream's end of stream reached a client behind a sniffing wrapper only after the 10 s half-close timeout. A fourth harness takes a port-53 client stream that does not open with a DNS query (five first-byte shapes: short announced length with arbitrary bytes, plausible length with a non-DNS body, a well-formed DNS response, one byte inside the window, nothing inside the window) through the real detection step handleTCPDnsFastPath / peekDnsMsgFromBufio and then through the relay over a bufioConn as handleConn does: detection declines the stream, leaves no read deadline armed, and the upstream receives every byte. Two further genuine defects were found there and repaired (detection deadline left armed; leading response frame consumed).",
+		LevelNote: "Partial claim. The splice(2) and writev fast paths need real *net.TCPConn file descriptors and are not executed (model sockets take the buffered-loop and gather paths); of handleConn only the port-53 detection step and its fallback are executed (not the served DNS fast path, routing, dial or the order of the steps); the detection-window timing clause is covered for the sniffer only (C06). Trusted: go/ssa, executor and thread model (switches at blocking operations only in this check), z3.",
 		Technique: techniqueText,
 		Explanation: "Bounded schedule exploration of the TCP relay core over model sockets with symbolic payloads.",
-		Bounds: map[string]string{"quick": "2 segments of 2-3 symbolic bytes per direction, 0/4 read-ahead bytes, 4 client-side wrapper stacks, all interleavings at blocking operations (no preemption inside a copy step); error harness: failure at the 1st or 2nd upstream write", "thorough": "same"},
-		Outside: []string{"splice / writev fast paths on real TCP sockets", "handleConn wiring, DNS-over-TCP fast path, prefetch timing", "half-close grace period expiry (the 10 s timer is armed but time does not advance in the model)", "MPTCP, proxy-protocol outbound connections"},
+		Bounds: map[string]string{"quick": "2 segments of 2-3 symbolic bytes per direction, 0/4 read-ahead bytes, 4 client-side wrapper stacks, all interleavings at blocking operations (no preemption inside a copy step); error harness: failure at the 1st or 2nd upstream write; port53: 5 first-byte shapes (5 arbitrary bytes in the short-length shape), 1-2 later client segments of 2-3 symbolic bytes, upstream bytes already waiting", "thorough": "same"},
+		Outside: []string{"splice / writev fast paths on real TCP sockets", "handleConn wiring beyond the port-53 detection fallback, the served DNS-over-TCP fast path (needs a DNS controller), prefetch timing", "half-close grace period expiry (the 10 s timer is armed but time does not advance in the model)", "MPTCP, proxy-protocol outbound connections"},
 		Assumptions: []string{"model socket: segments arrive on a channel, a read deadline of time.Unix(1,0) or Close unblocks a pending read with a timeout error", "the clock is arbitrary but later than the epoch sentinel the relay uses as 'deadline in the past'"},
 		QuickBudget: 10 * time.Minute, ThoroughBudget: 20 * time.Minute,
 	}
